@@ -163,4 +163,51 @@ theorem addRaw_rebuilt_causal (stored : List Change) (ourPath theirPath : List N
     · simp at hres
 
 
+/-- **a causal enumeration from the entry property.**  `pre ++ csC :: rest` is the storage, `extra` the not yet stored
+changes of the batch, the whole sequence being a linear extension (`SInv`); `D` marks the changes strictly below the
+common snapshot `cs`, and below `cs` the DAG is entered only through `cs` (every previous id and the snapshot base of a
+marked change is `cs` or marked - `honest_entry` for honest histories).  Then the marked changes, in stored order, form
+a causal enumeration from `cs`. -/
+theorem causal_from_entry (pre rest extra : List Change) (cs : Nat) (csC : Change) (D : Nat → Bool)
+    (hF : SInv ((pre ++ csC :: rest) ++ extra)) (hid : csC.id = cs)
+    (D0 : D cs = false) (Dpre : ∀ c ∈ pre, D c.id = false)
+    (D1 : ∀ c ∈ rest ++ extra, D c.id = true →
+      c.prevs ≠ [] ∧ (∀ p ∈ c.prevs, p = cs ∨ D p = true) ∧ (c.snap = cs ∨ D c.snap = true)) :
+    CausalFor (baseTree cs csC) ((rest ++ extra).filter (fun c => D c.id)) := by
+  have hhas : (baseTree cs csC).has cs = true := by
+    simp [baseTree, T.has, hid]
+  intro a c b hdec
+  obtain ⟨x1, x2', hW, hf1, hf2⟩ := List.filter_eq_append_iff.mp hdec
+  obtain ⟨m1, x2, hm, hno, hDc, _⟩ := List.filter_eq_cons_iff.mp hf2
+  have hW' : rest ++ extra = (x1 ++ m1) ++ c :: x2 := by rw [hW, hm]; simp
+  have hcW : c ∈ rest ++ extra := by rw [hW']; simp
+  obtain ⟨hne, hprevs, hsnap⟩ := D1 c hcW hDc
+  -- where `c` sits in the whole sequence
+  have hFdec : (pre ++ csC :: rest) ++ extra = (pre ++ csC :: (x1 ++ m1)) ++ c :: x2 := by
+    have : (pre ++ csC :: rest) ++ extra = pre ++ csC :: (rest ++ extra) := by simp
+    rw [this, hW']; simp
+  obtain ⟨hlp, hls⟩ := hF.lin _ c x2 hFdec (by simp)
+  -- an id that is marked and stored before `c` is the id of a marked change among `x1 ++ m1`, hence of `a`
+  have key : ∀ p, D p = true → p ∈ (pre ++ csC :: (x1 ++ m1)).map (·.id) → p ∈ a.map (·.id) := by
+    intro p hDp hp
+    obtain ⟨d, hd, hdid⟩ := List.mem_map.mp hp
+    rcases List.mem_append.mp hd with h | h
+    · have := Dpre d h; rw [hdid, hDp] at this; exact Bool.noConfusion this
+    · rcases List.mem_cons.mp h with h | h
+      · rw [h, hid] at hdid; rw [← hdid, D0] at hDp; exact Bool.noConfusion hDp
+      · rcases List.mem_append.mp h with h | h
+        · rw [← hf1]
+          exact List.mem_map.mpr ⟨d, List.mem_filter.mpr ⟨h, by rw [hdid]; exact hDp⟩, hdid⟩
+        · have := hno d h
+          rw [hdid, hDp] at this; exact absurd rfl this
+  refine ⟨?_, ?_, Or.inl hne⟩
+  · intro p hp
+    rcases hprevs p hp with e | e
+    · left; rw [e]; exact hhas
+    · exact Or.inr (key p e (hlp p hp))
+  · rcases hsnap with e | e
+    · left; rw [e]; exact hhas
+    · exact Or.inr (key _ e hls)
+
+
 end AnySync.Tree
